@@ -169,7 +169,11 @@ impl RadixSort {
     }
 
     fn sort_u32_sequential(&self, data: &mut [u32]) -> Result<()> {
-        if data.len() <= self.config.use_counting_sort_threshold {
+        // Counting sort needs max+1 counters: only worth it (and only affordable) when the
+        // value range is small; otherwise fall through to the radix passes.
+        if data.len() <= self.config.use_counting_sort_threshold
+            && data.iter().max().map_or(true, |&m| (m as usize) < (1usize << 16))
+        {
             self.counting_sort_u32(data);
             return Ok(());
         }
